@@ -30,9 +30,10 @@ var postOps = map[string]bool{
 }
 
 type instr struct {
-	fset *token.FileSet
-	info *types.Info
-	used bool
+	fset     *token.FileSet
+	info     *types.Info
+	used     bool
+	pkgScope *types.Scope
 }
 
 func (x *instr) posStr(p token.Pos) string {
@@ -307,6 +308,12 @@ var osRewrites = map[string]string{
 	"(*os.File).Write": "OSWrite", "(*os.File).Sync": "OSSync", "(*os.File).Close": "OSClose",
 }
 
+// hookRewrites: calls redirected natively to an in-package harness function when the package
+// declares it (the function decides at run time whether to call through to the real one).
+var hookRewrites = map[string]string{
+	"github.com/nsqio/go-diskqueue.New": "verifHookDiskqueueNew",
+}
+
 // rewriteOS turns os file calls into verifrt wrappers (native crash/fault injection).
 func (x *instr) rewriteOS(f *ast.File) {
 	ast.Inspect(f, func(n ast.Node) bool {
@@ -315,6 +322,12 @@ func (x *instr) rewriteOS(f *ast.File) {
 			return true
 		}
 		name := x.callee(call)
+		if hook, isHook := hookRewrites[name]; isHook && x.pkgScope != nil && x.pkgScope.Lookup(hook) != nil {
+			// harness-declared native stand-in (the native counterpart of verifrt.Stub)
+			call.Fun = ast.NewIdent(hook)
+			x.used = true
+			return true
+		}
 		w, ok := osRewrites[name]
 		if !ok {
 			return true
@@ -342,7 +355,7 @@ func instrumentPackage(dir string) (map[string][]byte, error) {
 		if strings.HasSuffix(name, "_test.go") {
 			continue
 		}
-		x := &instr{fset: pkg.Fset, info: pkg.TypesInfo}
+		x := &instr{fset: pkg.Fset, info: pkg.TypesInfo, pkgScope: pkg.Types.Scope()}
 		if !strings.Contains(name, "zz_verif_") {
 			x.rewriteOS(f)
 		}
